@@ -197,12 +197,22 @@ def check_cubic_norm(res, facts):
         rule.ok(key, "%d general path(s) through the Frobenius product; no shortcut arm, or shortcut arms equal c0^3" % general, fn.loc)
 
 
-def check_cycexp(res, facts):
+def check_cycexp(res, facts, semantic=False):
     """cyclotomic exponentiation: signed (NAF) digits are produced only when INVERSE_IS_FAST, the only configuration in
     which the shared loop honours a negative digit (multiplies by the inverse); with INVERSE_IS_FAST = false the loop
     ignores negative digits, so it must be fed plain bits."""
     from arklib import dataflow as DF
     rule = res.rule("R-CYCEXP", "cyclotomic_exp: NAF recoding only under INVERSE_IS_FAST; exp_loop multiplies by f on +1, by f^-1 on -1 exactly when INVERSE_IS_FAST (the loop clause gives no verdict on shapes it does not model)", 1)
+    _bad = rule.bad
+
+    def shape_bad(key_, msg, loc=""):
+        # R-CYCEXP.value evaluated the routine for every exponent of its range in both configurations: a body that does not
+        # match the template below is then decided by that evaluation, not by its shape
+        if semantic:
+            rule.ok(key_, "template not matched (%s); the value f^e is decided by evaluation under R-CYCEXP.value" % msg[:100], loc)
+        else:
+            _bad(key_, msg, loc)
+    rule.bad = shape_bad
     fns = {}
     for f in facts.fns(unit="ws", crate="ark_ff"):
         if f.kind != "Closure" and "fields::cyclotomic" in f.id and f.name in ("cyclotomic_exp_in_place", "exp_loop"):
@@ -287,7 +297,8 @@ def run(ctx, res):
     check_generic(res, facts)
     from rules import c02_towers
     c02_towers.check(res, facts)
-    check_cycexp(res, facts)
+    semantic = check_cycexp_value(res, facts, ctx.tier)
+    check_cycexp(res, facts, semantic)
     check_cubic_norm(res, facts)
     from rules import lincomb
     lincomb.check_field_ops(res, facts, ("QuadExtField<", "CubicExtField<"), 56)
@@ -297,3 +308,56 @@ def run(ctx, res):
         "assumptions": ["the base ring operations are a commutative ring (C01 for prime fields, induction up the tower)", "sum_of_products(a, b) = sum a_i b_i (its Montgomery implementation is C01's subject)"],
         "trusted_base": ["rustc MIR construction and trait resolution", "arklib/symex.py path evaluation and arklib/poly.py normal forms", "the schoolbook formulas in rules/c02.py / rules/c02_towers.py"],
     }
+
+
+def check_cycexp_value(res, facts, tier):
+    """cyclotomic_exp_in_place(f, e) = f^e, decided in the exponent domain: f is a ring symbol, the exponent limbs are concrete,
+    so the recoding (find_naf / BitIteratorBE), the digit loop, the squarings and the multiplications by f / f^-1 unroll along the
+    MIR and the result is a monomial f^k (a quotient f^a / f^b on the signed-digit path); it must equal f^e -- for every exponent
+    of the range, in both configurations (INVERSE_IS_FAST true: signed digits; false: plain bits), including zero exponents in
+    every encoding ([], [0], [0, 0]) and multi-limb ones.  Independent of how the loop is organised."""
+    from arklib.poly import Poly
+    from rules import c07_dft, c08_arith
+    rule = res.rule("R-CYCEXP.value", "cyclotomic_exp_in_place(f, e) = f^e for all e <= 64 (thorough 300), zero in every encoding and multi-limb exponents, with and without fast inverse [evaluation in the exponent domain]", 0)
+    fns = [f for f in facts.fns(unit="ws", crate="ark_ff") if f.name == "cyclotomic_exp_in_place" and f.kind != "Closure" and f.default_of]
+    if not fns:
+        rule.bad("ark_ff|cyclotomic_exp_in_place|value", "anchor missing")
+        return False
+    fn = fns[0]
+    top = 300 if tier == "thorough" else 64
+    exps = [[]] + [[k] for k in range(0, top + 1)] + [[0, 0], [0, 1], [5, 3], [(1 << 63) + 1], [(1 << 64) - 1], [(1 << 64) - 1, (1 << 64) - 1], [1, 0, 0]]
+    decided = []
+    for fast in (True, False):
+        key = "ark_ff|cyclotomic_exp_in_place|INVERSE_IS_FAST=%s" % str(fast).lower()
+        verdict = None
+        for limbs in exps:
+            e = sum(v << (64 * i) for i, v in enumerate(limbs))
+            ex = SX.Engine(facts, "ws", c07_dft._models(c08_arith._first), env={"INVERSE_IS_FAST": fast}, max_paths=4, max_depth=8, inline_limit=600, max_visits=200000)
+            cell = SX.Cell(Q.var("f"))
+            arg = SX.Ref(SX.Cell(SX.Obj(adt="array", fields={i: v for i, v in enumerate(limbs)})))
+            try:
+                paths = [p for p in ex.run(fn, [SX.Ref(cell), arg]) if "panic" not in p.flags]
+            except RecursionError:
+                verdict = ("noverdict", "recursion limit")
+                break
+            if len(paths) != 1 or paths[0].flags:
+                verdict = ("noverdict", "e = %s: not evaluable (%s)" % (limbs, sorted(paths[0].flags)[:4] if paths else "no path"))
+                break
+            got = SX.q_of(cell.v)
+            if got is None:
+                verdict = ("noverdict", "e = %s: result is not a ring value" % limbs)
+                break
+            want = Q(Poly({(("f", e),): 1})) if e else Q.const(1)
+            if not got.equals(want):
+                verdict = ("bad", "exponent %s (limbs %s): the result is %s, not f^%d" % (e, limbs, str(got)[:80], e))
+                break
+        if verdict is None:
+            rule.ok(key, "%d exponents: result = f^e" % len(exps), fn.loc)
+            decided.append(True)
+        elif verdict[0] == "bad":
+            rule.bad(key, verdict[1], fn.loc)
+            decided.append(True)
+        else:
+            rule.noverdict(key, "shape not modelled (%s)" % verdict[1], fn.loc)
+            decided.append(False)
+    return len(decided) == 2 and all(decided)
